@@ -69,6 +69,10 @@ func (in *Interp) strConcat(a, b Str) Str {
 
 func (in *Interp) strEq(a, b Str) *Term {
 	tb := in.tb
+	if a.B58 != nil && b.B58 != nil {
+		// base58 is injective: the texts are equal iff the payloads are
+		return in.bytesEq(Slice{A: a.B58}, Slice{A: b.B58})
+	}
 	if a.Opaque || b.Opaque {
 		panic(engineAbort{"comparison of opaque string"})
 	}
